@@ -32,6 +32,8 @@ def hostile_steps(rng, s):
         lambda: raw(b"STOR ../../../../etc/passwd\r\n"),
         lambda: raw(b"PORT 127,0,0,1,0,22\r\n"),
         lambda: raw(b"PW"),
+        lambda: raw(b"CWD caf\xc3"), lambda: raw(b"MKD \xe2\x82"), lambda: raw(b"USER \xf0\x9f\x98"), lambda: raw(b"\xc3"),   # a character cut in two at the end of the stream
+        lambda: raw(b"CWD caf\xc3\r\n"),
         lambda: raw(bytes(rng.choice([x for x in range(256) if x != 10]) for _ in range(rng.choice([1, 5, 40]))) + b"\r\n"),
     ]
     st = [["connect", s]]
@@ -46,7 +48,11 @@ def hostile_steps(rng, s):
         st += [["send", s, "USER u2"], ["lgate", s, rng.choice(["prebind", "postbind"])], ["send", s, rng.choice(["PASV", "EPSV"])],
                ["sendraw", s, rng.choice(kinds[:5])()], ["lrelease", s]]
     for _ in range(rng.choice([1, 2, 4])):
-        st.append(["sendraw", s, rng.choice(kinds)()])
+        k = rng.choice(kinds)()
+        st.append(["sendraw", s, k])
+        if k[-1:] != [10]:      # a fragment: the stream ends inside the line
+            st.append(["vanish", s])
+            return st
         if rng.random() < 0.3:
             st.append(["send", s, "PWD"])
     r = rng.random()
